@@ -16,6 +16,48 @@ mod xmlre;
 
 type Log = Arc<Mutex<Vec<Value>>>;
 
+static TRACE_BUF: std::sync::OnceLock<Arc<Mutex<Vec<u8>>>> = std::sync::OnceLock::new();
+
+#[derive(Clone)]
+struct BufWriter(Arc<Mutex<Vec<u8>>>);
+
+impl std::io::Write for BufWriter {
+    fn write(&mut self, b: &[u8]) -> std::io::Result<usize> {
+        self.0.lock().unwrap().extend_from_slice(b);
+        Ok(b.len())
+    }
+    fn flush(&mut self) -> std::io::Result<()> {
+        Ok(())
+    }
+}
+
+impl<'a> tracing_subscriber::fmt::MakeWriter<'a> for BufWriter {
+    type Writer = BufWriter;
+    fn make_writer(&'a self) -> Self::Writer {
+        self.clone()
+    }
+}
+
+/// installs a TRACE-level subscriber (every span/event field, span enter/exit) that writes into a buffer
+fn install_trace_capture() {
+    let buf = Arc::new(Mutex::new(Vec::new()));
+    let _ = TRACE_BUF.set(buf.clone());
+    let sub = tracing_subscriber::fmt()
+        .with_max_level(tracing::Level::TRACE)
+        .with_span_events(tracing_subscriber::fmt::format::FmtSpan::FULL)
+        .with_ansi(false)
+        .with_writer(BufWriter(buf))
+        .finish();
+    let _ = tracing::subscriber::set_global_default(sub);
+}
+
+fn take_trace() -> String {
+    match TRACE_BUF.get() {
+        Some(b) => String::from_utf8_lossy(&std::mem::take(&mut *b.lock().unwrap())).to_string(),
+        None => String::new(),
+    }
+}
+
 pub struct Recorder {
     log: Log,
     script: Value,
@@ -309,6 +351,9 @@ async fn run_scenario(sc: &Value) -> Value {
         }
     }
     out["events"] = Value::Array(log.lock().unwrap().clone());
+    if TRACE_BUF.get().is_some() {
+        out["trace_log"] = json!(take_trace());
+    }
     out
 }
 
@@ -320,7 +365,10 @@ fn main() {
     }
     let rt = tokio::runtime::Builder::new_current_thread().enable_time().start_paused(true).build().unwrap();
     match args[1].as_str() {
-        "scenario" | "scenarios" => {
+        "scenario" | "scenarios" | "scenarios-traced" => {
+            if args[1] == "scenarios-traced" {
+                install_trace_capture();
+            }
             let v: Value = serde_json::from_str(&std::fs::read_to_string(&args[2]).expect("read scenario")).expect("json");
             std::panic::set_hook(Box::new(|_| {}));
             if let Some(list) = v.as_array() {
